@@ -35,7 +35,7 @@ func (c06) Describe() CheckInfo {
 		},
 		RealCode:       []string{"gopatch main()/runMain/mainCmd.Run, loader, patch.Parse/File.Apply, internal/*, go-flags, pkg/diff, x/tools/imports, go-intervals, go/parser, go/printer"},
 		Stubs:          []string{"package os (simulated filesystem, streams, exit)", "path/filepath filesystem half", "io/ioutil"},
-		RequiredProbes: []string{"unmatched-noncanonical", "unmatched-with-matching-neighbour", "print-only-echo", "diff-mode", "api-apply-unmatched", "verbose", "echo-adjacency-checked", "unmatched-readonly-or-odd-mode", "api-earlier-call-on-shared-patch", "fault-fired", "fault-on-stdout-in-print-mode", "many-files-under-descriptor-limit", "line-directive-names-sibling-file", "file-grows-between-walk-and-read"},
+		RequiredProbes: []string{"unmatched-noncanonical", "unmatched-with-matching-neighbour", "print-only-echo", "diff-mode", "api-apply-unmatched", "verbose", "echo-adjacency-checked", "unmatched-readonly-or-odd-mode", "api-earlier-call-on-shared-patch", "fault-fired", "fault-on-stdout-in-print-mode", "many-files-under-descriptor-limit", "line-directive-names-sibling-file", "file-grows-between-walk-and-read", "underscore-or-dot-named-file"},
 	}
 }
 
@@ -87,7 +87,14 @@ func (c06) Gen(env *Env, seed uint64, tier string, i int) *Case {
 			if ContainsAny(data, triggers) || ContainsAny(data, []string{"Code generated", "@generated"}) {
 				continue
 			}
-			p := c.AddFile(fmt.Sprintf("%snm%d.go", dir, j), data, "nomatch", nil, note)
+			fname := fmt.Sprintf("%snm%d.go", dir, j)
+			if r.Chance(1, 6) {
+				// names the go tool ignores, which gopatch does not: they sort before
+				// their siblings
+				fname = fmt.Sprintf("%s%snm%d.go", dir, r.Pick([]string{"_", "."}), j)
+				c.Extra["underscore_named"] = "1"
+			}
+			p := c.AddFile(fname, data, "nomatch", nil, note)
 			if r.Chance(1, 5) {
 				// read-only and otherwise unusual permission bits
 				c.SetNode(world.NodeSpec{Path: p, Kind: "file", Data: data, Mode: []uint32{0o444, 0o555, 0o400, 0o640, 0o664}[r.Intn(5)]})
@@ -355,6 +362,9 @@ func (c06) Eval(env *Env, c *Case) []Violation {
 	}
 	if c.Extra["line_names_sibling"] == "1" {
 		env.Probe("line-directive-names-sibling-file")
+	}
+	if c.Extra["underscore_named"] == "1" {
+		env.Probe("underscore-or-dot-named-file")
 	}
 	apiCache := map[int]Applier{}
 	stdoutPos := 0
